@@ -104,11 +104,12 @@ C = {
          "'each call appends the same string to completion and to the queue' to 'delivered text == completion' is an induction stated in prose"),
  "C19": ("the cache decorator cache_embeddings.wrapper_decorator (real nested function, heap mode): for every list of texts - duplicates, any mix of "
          "cached and new texts, cache enabled or not - the result has the length of the input and its i-th item is the model's vector for the i-th "
-         "text (exact filtered comprehension, dict update, order-preserving read-back)",
+         "text (exact filtered comprehension, dict update, order-preserving read-back); the list forms of EmbeddingsCache.get / set (the real "
+         "singledispatch registrations) verified against the single-text forms and used by the wrapper through their contracts",
          "cache_embeddings / EmbeddingsCache / batching with a gated fake model: own vector per text, input order, completion of concurrent requests",
          "ASSUMED contracts for what surrounds the wrapper: EmbeddingsCache.from_config yields a coherent map text -> vector (A-KEY: injective key "
-         "generator, map-like store; coherence fails when two models share a store: known finding), EmbeddingsCache.get / set (list forms) behave "
-         "as a map, the decorated _get_embeddings returns the model's vectors in order; request batching, concurrency and progress are bounded only"),
+         "generator, map-like store; coherence fails when two models share a store: known finding), the single-text EmbeddingsCache.get(text) / "
+         "set(text, value) are the map abstraction itself, the decorated _get_embeddings returns the model's vectors in order; request batching, concurrency and progress are bounded only"),
  "C20": ("every path the real _get_rails hands to RailsConfig.from_path (ghost trace) is the configured root or lies lexically inside it with no '..' component, on "
          "normal and exceptional exits, for every list of config ids", "thread-history clauses of chat_completion (stored thread ++ new messages ++ reply; threads never mix)",
          "os.path.abspath/join/normpath/commonprefix axioms (A-*), from_path/LLMRails do not modify the server globals, root != '/'; symlinks outside a lexical contract"),
